@@ -127,5 +127,24 @@ Section Indexed.
     end.
 End Indexed.
 
+(* ---- the SPEC list: the concatenation of the blocks, and what the index must satisfy ---- *)
+Section Concat.
+  Variables K V D : Type.
+  Variable kcmp : K -> K -> comparison.
+
+  Definition concat_blocks (il : list (K * D)) (dl : D -> list (K * V)) : list (K * V) :=
+    concat (map (fun e => dl (snd e)) il).
+
+  (* index keys strictly increasing, every block strictly sorted, the index key of a block is
+     >= all its keys and < all keys of the later blocks (table index blocks: separators; levels:
+     largest keys of the tables) *)
+  Definition index_ok (il : list (K * D)) (dl : D -> list (K * V)) : Prop :=
+    sorted_kv kcmp il /\
+    (forall e, In e il -> sorted_kv kcmp (dl (snd e))) /\
+    (forall e x, In e il -> In x (dl (snd e)) -> kcmp (fst x) (fst e) <> Gt) /\
+    (forall a e b x, il = a ++ e :: b -> forall e', In e' b -> In x (dl (snd e')) -> kcmp (fst e) (fst x) = Lt).
+End Concat.
+
+Arguments concat_blocks {K V D}. Arguments index_ok {K V D}.
 Arguments XOk {I C}. Arguments XOutOfFuel {I C}.
 Arguments x_index {I C}. Arguments x_data {I C}. Arguments x_init {I C}.
